@@ -129,22 +129,36 @@ fn load_graph(
     // Map of model node index to graph node ID
     let mut node_id_from_index: HashMap<usize, NodeId> = HashMap::with_capacity(node_count);
 
-    let input_ids: Vec<NodeId> = serialized_graph
-        .inputs()
-        .map(|ids| ids.iter().map(NodeId::from_u32).collect())
-        .unwrap_or_default();
+    // Convert node indices from the file to node IDs, checking that they
+    // refer to a node in this graph.
+    let node_ids = |indices: Option<flatbuffers::Vector<u32>>| -> Result<Vec<NodeId>, LoadError> {
+        indices
+            .iter()
+            .flatten()
+            .map(|index| {
+                if (index as usize) < node_count && index <= i32::MAX as u32 {
+                    Ok(NodeId::from_u32(index))
+                } else {
+                    Err(load_error!(
+                        GraphError,
+                        None,
+                        "invalid node index {}",
+                        index
+                    ))
+                }
+            })
+            .collect()
+    };
 
-    let output_ids: Vec<NodeId> = serialized_graph
-        .outputs()
-        .map(|ids| ids.iter().map(NodeId::from_u32).collect())
-        .unwrap_or_default();
+    let input_ids = node_ids(serialized_graph.inputs())?;
+    let output_ids = node_ids(serialized_graph.outputs())?;
 
     let mut graph = Graph::with_capacity(node_count);
     graph.set_input_ids(&input_ids);
     graph.set_output_ids(&output_ids);
 
-    if let Some(captures) = serialized_graph.captures() {
-        let captures: Vec<NodeId> = captures.iter().map(NodeId::from_u32).collect();
+    if serialized_graph.captures().is_some() {
+        let captures = node_ids(serialized_graph.captures())?;
         graph.set_captures(&captures);
     }
 
@@ -364,16 +378,20 @@ fn add_graph_constant(
     } else {
         // Constant data is stored inline in model
         let graph_node = if let Some(float_data) = constant.data_as_float_data() {
-            let const_data = constant_data_from_flatbuffers_vec(storage, float_data.data(), &shape);
+            let const_data =
+                constant_data_from_flatbuffers_vec(storage, float_data.data(), &shape, name)?;
             graph.add_constant(name, const_data)
         } else if let Some(int_data) = constant.data_as_int_32_data() {
-            let const_data = constant_data_from_flatbuffers_vec(storage, int_data.data(), &shape);
+            let const_data =
+                constant_data_from_flatbuffers_vec(storage, int_data.data(), &shape, name)?;
             graph.add_constant(name, const_data)
         } else if let Some(int8_data) = constant.data_as_int_8_data() {
-            let const_data = constant_data_from_flatbuffers_vec(storage, int8_data.data(), &shape);
+            let const_data =
+                constant_data_from_flatbuffers_vec(storage, int8_data.data(), &shape, name)?;
             graph.add_constant(name, const_data)
         } else if let Some(uint8_data) = constant.data_as_uint_8_data() {
-            let const_data = constant_data_from_flatbuffers_vec(storage, uint8_data.data(), &shape);
+            let const_data =
+                constant_data_from_flatbuffers_vec(storage, uint8_data.data(), &shape, name)?;
             graph.add_constant(name, const_data)
         } else {
             return Err(load_error!(
@@ -394,14 +412,19 @@ fn constant_data_from_flatbuffers_vec<'a, T: FromByteArray + flatbuffers::Follow
     storage: &Arc<ConstantStorage>,
     fb_vec: flatbuffers::Vector<'a, T>,
     shape: &[usize],
-) -> ConstantNodeData<T> {
+    name: Option<&str>,
+) -> Result<ConstantNodeData<T>, LoadError> {
+    let shape_mismatch = || load_error!(GraphError, name, "constant data does not match shape");
     if let Some(elements) = cast_le_bytes(fb_vec.bytes()) {
         let storage =
             ArcSlice::new(storage.clone(), elements).expect("storage does not contain data");
-        ArcTensorView::from_data(shape, storage).into()
+        let tensor = ArcTensorView::try_from_data(shape, storage).map_err(|_| shape_mismatch())?;
+        Ok(tensor.into())
     } else {
         let data: Vec<T> = fb_vec.iter().collect();
-        ArcTensor::from_data(shape, Arc::new(data)).into()
+        let tensor =
+            ArcTensor::try_from_data(shape, Arc::new(data)).map_err(|_| shape_mismatch())?;
+        Ok(tensor.into())
     }
 }
 
@@ -424,24 +447,32 @@ fn constant_data_from_storage_offset<T: LeBytes + FromByteArray>(
     offset: usize,
     name: Option<&str>,
 ) -> Result<ConstantNodeData<T>, LoadError> {
-    let n_elements: usize = shape.iter().product();
-    let byte_len = n_elements * std::mem::size_of::<T>();
+    let invalid_range = || load_error!(GraphError, name, "invalid tensor data offset");
 
-    let Some(bytes) = storage.data().get(offset..offset + byte_len) else {
-        return Err(load_error!(GraphError, name, "invalid tensor data offset"));
+    // The shape and offset come from the file, so the size and end of the
+    // tensor data must be computed without overflow.
+    let byte_range = shape
+        .iter()
+        .try_fold(1usize, |len, &size| len.checked_mul(size))
+        .and_then(|n_elements| n_elements.checked_mul(std::mem::size_of::<T>()))
+        .and_then(|byte_len| Some(offset..offset.checked_add(byte_len)?));
+    let Some(bytes) = byte_range.and_then(|range| storage.data().get(range)) else {
+        return Err(invalid_range());
     };
 
     if let Some(elements) = cast_le_bytes(bytes) {
         let storage =
             ArcSlice::new(storage.clone(), elements).expect("storage does not contain data");
-        let const_data: ConstantNodeData<T> = ArcTensorView::from_data(shape, storage).into();
-        Ok(const_data)
+        let tensor = ArcTensorView::try_from_data(shape, storage).map_err(|_| invalid_range())?;
+        Ok(tensor.into())
     } else {
         let data: Vec<_> = bytes
             .chunks(std::mem::size_of::<T>())
             .map(|chunk| T::from_le_bytes(chunk.try_into().unwrap()))
             .collect();
-        Ok(ArcTensor::from_data(shape, Arc::new(data)).into())
+        let tensor =
+            ArcTensor::try_from_data(shape, Arc::new(data)).map_err(|_| invalid_range())?;
+        Ok(tensor.into())
     }
 }
 
